@@ -66,7 +66,7 @@ def AtomKind.debracket (k : AtomKind) (bos : Nat) : Debracket :=
   | .bracket b =>
     if b.isotope.isSome || b.configuration.isSome || b.charge.isSome || b.map.isSome then .ok k
     else
-      let h := match b.hcount with | some h => h.val | none => 0
+      let h := hcountOf (.bracket b)
       match b.symbol with
       | .star => if h = 0 then .ok .star else .ok k
       | .aromatic a =>
